@@ -234,7 +234,7 @@ def finish(mod, tier, seed, total, errors, wall, nshards, slowest):
     for name in os.listdir(replay_dir):
         if name.startswith(pid + '-'):
             os.remove(os.path.join(replay_dir, name))
-    for i, v in enumerate(unknown[:10]):
+    for i, v in enumerate(unknown[:int(os.environ.get('VERIF_MAX_REPORT', '10'))]):
         path = os.path.join(replay_dir, '%s-%02d.json' % (pid, i))
         with open(path, 'w') as f:
             json.dump({'property': pid, 'case': v['case'], 'sig': v['sig'], 'msg': v['msg']}, f, indent=1, default=str)
